@@ -25,7 +25,7 @@ RULE = ("(1) trees with hostile trusted payloads (metacharacters, entities, newl
 ASSUMPTIONS = ["hv.ref.layout decides placement for validly nested trees; plain text in these trees needs no escaping"]
 SHARDS = {"quick": 1, "thorough": 16}
 
-HOSTILE = ["<b>&amp;</b>", "</div>", "<!-- c -->", "a&b", "&lt;", "x\ny", "\n", "<script>alert(1)</script>", "</script>", "\"q\"", "'",
+HOSTILE = ["\\n", "\\1x", "\\g<0>", "C:\\dir\\f", "<b>&amp;</b>", "</div>", "<!-- c -->", "a&b", "&lt;", "x\ny", "\n", "<script>alert(1)</script>", "</script>", "\"q\"", "'",
            "<![CDATA[x]]>", "&#60;", "  lead", "trail  ", "<p>\n  <i>t</i>\n</p>", "&", "<", ">", "\r\n", "é\U0001f600", "\x00"]
 
 
@@ -42,6 +42,8 @@ def rand_trusted_tree(rng, ids, depth, valid, inside_inline=False):
             return {"k": "text", "s": ids.next("t")}
         if k == "meta":
             return {"k": "meta"}
+        if rng.random() < 0.08:
+            return {"k": k, "s": ""}  # trusted content may be empty
         return {"k": k, "s": payload(rng, ids, "h" if k == "html" else "o")}
     if r < 0.45:
         name = rng.choice(["script", "style"])
@@ -106,6 +108,8 @@ def _check_tree(ctx, r, indent, eol, view):
     ctx.count("oracle.verbatim")
     wit = {"recipe": r, "indent": indent, "eol": eol, "view": view, "output": out[:1500]}
     for p in payloads_of(r):
+        if p == "":
+            continue
         ctx.count("payloads_checked")
         if out.count(p) != 1:
             ctx.violation("trusted-payload-not-verbatim", "trusted payload %r occurs %d times in the output" % (p[:60], out.count(p)), wit)
@@ -147,16 +151,21 @@ class ExprFail(Exception):
     pass
 
 
-def eval_expr(e, log):
-    """Returns (live value, model) where model is ("str", s) or ("html", parts)."""
+def eval_expr(e, log, values=None):
+    """Returns (live value, model) where model is ("str", s) or ("html", parts).
+    `values` collects (live HTML object, its text when it was created) for every leaf and intermediate value."""
+    if values is None:
+        values = []
     if "leaf" in e:
         if e["leaf"] == "str":
             return e["v"], ("str", e["v"])
         if e["leaf"] == "html":
-            return ht.HTML(e["v"]), ("html", [("html", e["v"])])
+            h = ht.HTML(e["v"])
+            values.append((h, e["v"]))
+            return h, ("html", [("html", e["v"])])
         return e["v"], ("num", e["v"])
-    lv, lm = eval_expr(e["l"], log)
-    rv, rm = eval_expr(e["r"], log)
+    lv, lm = eval_expr(e["l"], log, values)
+    rv, rm = eval_expr(e["r"], log, values)
     if e["op"] == "add":
         v = lv + rv
     elif e["op"] == "iadd":
@@ -173,6 +182,8 @@ def eval_expr(e, log):
         m = ("html", parts(lm) + parts(rm))
         if not isinstance(v, ht.HTML):
             log.append("a concatenation involving HTML() yielded %s" % type(v).__name__)
+        else:
+            values.append((v, v.as_string()))
     else:
         m = ("str", lm[1] + rm[1])
         if isinstance(v, ht.HTML):
@@ -189,9 +200,10 @@ def leaves_as_children(m):
 
 def check_expr(ctx, e):
     log = []
+    values = []
     wit = {"expr": e}
     try:
-        v, m = eval_expr(e, log)
+        v, m = eval_expr(e, log, values)
     except Exception as ex:
         ctx.violation("concat-raises", "evaluating the expression raised %r" % ex, wit)
         return False
@@ -199,6 +211,11 @@ def check_expr(ctx, e):
     if log:
         ctx.violation("concat-loses-html-mark", log[0], wit)
         return False
+    # operands and intermediate values are values: a later + / += must not have changed them
+    for k, (obj, text) in enumerate(values):
+        if obj is not v and obj.as_string() != text:
+            ctx.violation("concat-mutates-operand", "an HTML() operand changed from %r to %r after it was used in a concatenation" % (text[:40], obj.as_string()[:60]), wit)
+            return False
     if m[0] != "html":
         return True
     s = v.as_string()
@@ -247,7 +264,27 @@ def leaves(e):
     return leaves(e["l"]) + leaves(e["r"])
 
 
+def check_textdoc(ctx, payloads, in_script):
+    """Trusted content of a dependency's head must reach an HTMLTextDocument rendering verbatim."""
+    wit = {"payloads": payloads, "in_script": in_script}
+    head = [ht.tags.script(p) if in_script else ht.HTML(p) for p in payloads]
+    dep = ht.HTMLDependency("hd", "1.0", head=ht.TagList(*head))
+    ctx.count("oracle.verbatim_textdoc")
+    try:
+        out = ht.HTMLTextDocument("<html><head>@@DEPS@@</head><body>b @@DEPS@@</body></html>", deps=[dep], deps_replace_pattern="@@DEPS@@").render()["html"]
+    except Exception as e:
+        ctx.violation("render-raises", "HTMLTextDocument.render() raised %r" % e, wit)
+        return False
+    for p in payloads:
+        if p and out.count(p) != 1:
+            ctx.violation("trusted-payload-not-verbatim", "HTMLTextDocument: trusted payload %r occurs %d times" % (p[:60], out.count(p)), dict(wit, output=out[:800]))
+            return False
+    return True
+
+
 def replay(ctx, w):
+    if "payloads" in w:
+        return check_textdoc(ctx, w["payloads"], w["in_script"])
     if "expr" in w:
         check_expr(ctx, w["expr"])
     else:
@@ -315,6 +352,12 @@ def _run(ctx):
         ps = payloads_of(r)
         ctx.case((r, view, ind, eol), nontrivial=any(set(p) & set("&<>\"'") for p in ps))
 
+    for _ in range(ctx.budget(400, 30000)):
+        ids = lg.Ids()
+        ps = [payload(rng, ids, "p") for _ in range(rng.randint(1, 3))]
+        insc = rng.random() < 0.4
+        check_textdoc(ctx, ps, insc)
+        ctx.case(("textdoc", ps, insc), nontrivial=any("\\" in p or set(p) & set("&<>") for p in ps))
     ctx.sample({"expr": {"op": "add", "l": {"leaf": "str", "v": "a<b"}, "r": {"leaf": "html", "v": "<i>"}},
                 "value": ("a<b" + ht.HTML("<i>")).as_string()})
     for _ in range(ctx.budget(3000, 200000)):
